@@ -3,7 +3,7 @@
 import json, os, re, glob
 root = os.path.join(os.path.dirname(os.path.abspath(__file__)), "..", "seeded")
 rows = []
-for d in sorted(glob.glob(os.path.join(root, "C*-m*"))):
+for d in sorted(glob.glob(os.path.join(root, "C*-*m[0-9]"))):
     name = os.path.basename(d)
     meta = json.load(open(os.path.join(d, "meta.json")))
     res = open(os.path.join(d, "result.txt")).read() if os.path.exists(os.path.join(d, "result.txt")) else ""
